@@ -3,6 +3,8 @@ package notation
 import (
 	"strings"
 	"testing"
+
+	"verifharness/core"
 )
 
 // FuzzParse is the native coverage-guided fuzz target of C12 (thorough tier): the same oracle as the
@@ -19,12 +21,18 @@ func FuzzParse(f *testing.F) {
 		"[\"" + strings.Repeat("\\\"", 30) + "\" 1](List)", "[\t](List)", "[1: [2: [3: nil](Map)](Catalog)](Map)\n"} {
 		f.Add(s)
 	}
+	known := core.LoadFindings("C12") // listed findings are excluded by construction: the campaign goes on behind them
 	f.Fuzz(func(t *testing.T, input string) {
 		if len(input) > 2048 {
 			t.Skip()
 		}
 		o := parseChecked(input)
 		if o.Kind == "violation" {
+			for i := range known {
+				if known[i].Matches(o.Violation.Signature) {
+					t.Skip("known finding " + known[i].ID)
+				}
+			}
 			t.Fatalf("VERIF-VIOLATION %s: %s", o.Violation.Signature, o.Violation.Message)
 		}
 	})
